@@ -66,7 +66,9 @@ func (s *kState) FindView(h uint64, r uint32, reason string) (*tmconsensus.Versi
 		return nil, 0, ViewFuture
 	}
 
-	if h == s.Committing.Height {
+	// A committing height of zero means there is no committing view yet;
+	// the zero-valued view must not be handed out for a request at height zero.
+	if h == s.Committing.Height && s.Committing.Height != 0 {
 		cr := s.Committing.Round
 		if r == cr {
 			return &s.Committing, ViewIDCommitting, ViewFound
